@@ -46,6 +46,23 @@ PROPS = {
                  "Failures matching the known finding C11-left-join-left-only-rows-not-maintained (LEFT JOIN query, results differ only in rows whose nullable-side columns are all NULL) are tolerated and counted."),
         "assumptions": ["values are integers, text and NULL (rendered identically by the API and the oracle)", "a case ends at its first tolerated known-finding hit (the stale row would poison later comparisons)"],
     },
+    "C13": {
+        "level": "fault_enumeration",
+        "workers": 16,
+        "engine": "E3-live",
+        "technique": "stop-point enumeration inside generated histories against a live agent: the production shutdown sequence (tripwire, task handles, SubsManager::drop_handles, counted tasks) with generated traffic still arriving, or a crash image of the whole node directory at one of three points of the subscription's life; restart with the real start_with_config; oracle: GET /v1/subscriptions/{id} (status, snapshot, resumed stream) vs the query re-evaluated on the database, meta.state and the subscription directory",
+        "level_text": ("per case: one of 7 join/filter query templates (the LEFT JOIN templates of C11 are left out because of the known finding there), 2-7 transactions before subscribing, a phase of 2-6 transactions "
+                       "(local over HTTP or remote over QUIC) with the C11 settle oracle, then the stop: (a) graceful - the sequence command::agent::run performs, while 0-5 further transactions are sent with a "
+                       "generated spacing of 0-400 ms (local ones are refused once the API is gone, remote broadcasts keep arriving and are offered again after the restart, as sync would); required: meta.state = "
+                       "'completed', same id answers 200 after the restart, snapshot + query table = SELECT on the database, change log not shorter than what the client had seen, a stream resumed from the client's last id "
+                       "has contiguous ids and ends where the full stream ends, 1-4 new transactions continue with the next ids; (b) crash image (database, WAL, subscription databases copied while the node runs) "
+                       "taken right after the subscription request was answered (creation / initial query), in the middle of the phase (candidates in flight) or when idle; required: the image never carries "
+                       "state 'completed', after restart the id answers 404 and its directory is gone"),
+        "level_note": "stop points are the three named life-cycle points x generated traffic, not every instruction boundary; the crash image is a file copy of a running node (SQLite files copied one after the other, as a kill would leave them up to page-cache effects); 'draining' is covered by the graceful path only",
+        "rule": ("generated as above (5:3 graceful:crash). Non-trivial: crash case (image taken of a live subscription), or graceful case in which the client had seen at least one change before the stop and new events arrived after "
+                 "the restart. Distinct = hash of the case."),
+        "assumptions": ["remote versions a restarted node no longer lists (all their changes lost the merge) are offered again by the harness", "the shutdown sequence mirrors crates/klukai/src/command/agent.rs"],
+    },
     "C15": {
         "level": "exploration",
         "workers": 16,
